@@ -478,6 +478,108 @@ func init() {
 		}
 		emit("(* deadline-(re)arming points: %s *)\nDefinition deadline_inventory : list (list N) :=\n  [%s].\n", strings.Join(inventory, " | "), strings.Join(invItems, ";\n   "))
 
+		// every function of package smtp that locks a mutex (x.mutex.Lock / RLock) releases it on every return path: by
+		// a defer, or explicitly before each return and before the end of the body.  A linear walk over the statements
+		// with the state "held"; function literals are analysed as functions of their own.
+		mutexOK := true
+		var leaky []string
+		isLock := func(pp *pkg, st ast.Stmt) (lock, unlock bool) {
+			es, ok := st.(*ast.ExprStmt)
+			if !ok {
+				return
+			}
+			ce, ok := es.X.(*ast.CallExpr)
+			if !ok {
+				return
+			}
+			f := pp.src(ce.Fun)
+			if !strings.Contains(f, "mutex.") && !strings.Contains(f, "Mutex.") {
+				return
+			}
+			return strings.HasSuffix(f, ".Lock") || strings.HasSuffix(f, ".RLock"), strings.HasSuffix(f, ".Unlock") || strings.HasSuffix(f, ".RUnlock")
+		}
+		var walkBlock func(pp *pkg, list []ast.Stmt, held bool, bad *bool) bool
+		walkBlock = func(pp *pkg, list []ast.Stmt, held bool, bad *bool) bool {
+			for _, st := range list {
+				if l, u := isLock(pp, st); l || u {
+					held = l
+					continue
+				}
+				switch x := st.(type) {
+				case *ast.ReturnStmt:
+					if held {
+						*bad = true
+					}
+					return held
+				case *ast.BlockStmt:
+					held = walkBlock(pp, x.List, held, bad)
+				case *ast.IfStmt:
+					walkBlock(pp, x.Body.List, held, bad)
+					if x.Else != nil {
+						walkBlock(pp, []ast.Stmt{x.Else}, held, bad)
+					}
+				case *ast.ForStmt:
+					walkBlock(pp, x.Body.List, held, bad)
+				case *ast.RangeStmt:
+					walkBlock(pp, x.Body.List, held, bad)
+				case *ast.SwitchStmt:
+					for _, cc := range x.Body.List {
+						walkBlock(pp, cc.(*ast.CaseClause).Body, held, bad)
+					}
+				case *ast.TypeSwitchStmt:
+					for _, cc := range x.Body.List {
+						walkBlock(pp, cc.(*ast.CaseClause).Body, held, bad)
+					}
+				}
+			}
+			return held
+		}
+		checkBody := func(pp *pkg, name string, body *ast.BlockStmt) {
+			if body == nil {
+				return
+			}
+			// a deferred unlock (directly or inside a deferred function literal) releases on every path
+			deferred := false
+			for _, st := range body.List {
+				if ds, ok := st.(*ast.DeferStmt); ok {
+					src := pp.src(ds.Call)
+					if strings.Contains(src, "Unlock()") {
+						deferred = true
+					}
+				}
+			}
+			if deferred {
+				return
+			}
+			bad := false
+			if walkBlock(pp, body.List, false, &bad) {
+				bad = true // still held at the end of the body
+			}
+			if bad {
+				mutexOK = false
+				leaky = append(leaky, name)
+			}
+		}
+		var smtpNames []string
+		for n := range sp.funcs {
+			smtpNames = append(smtpNames, n)
+		}
+		sort.Strings(smtpNames)
+		for _, n := range smtpNames {
+			fn := sp.funcs[n]
+			if fn.Body == nil {
+				continue
+			}
+			checkBody(sp, n, fn.Body)
+			ast.Inspect(fn.Body, func(x ast.Node) bool {
+				if fl, ok := x.(*ast.FuncLit); ok {
+					checkBody(sp, n+"/func", fl.Body)
+				}
+				return true
+			})
+		}
+		emitBool("smtp_mutex_released_always", mutexOK, "package smtp: every function that locks a mutex unlocks it on every return path (by defer or explicitly); leaking: "+strings.Join(leaky, ", "))
+
 		// sendSingleMsg: a failed RSET after a failed MAIL / RCPT / DATA closes the connection; a rejected DATA is
 		// followed by RSET (repairs of C03/C04 that change the send dialogue the dial-and-send model runs through)
 		sendAbort := false
